@@ -154,18 +154,20 @@ theorem new_identity_accepted (decode : Bytes → Option (Signed Msg)) (ca : Ca)
     rw [hd] at hh; cases hh; rw [hl2] at hl'; cases hl'
     exact absurd ⟨rfl, hfresh⟩ hs
   | passed sg' c' _ hh hl' hs r hr =>
-    simp only at hr
     split at hr
     · simp only [Prod.mk.injEq, Out.refused.injEq] at hr; exact hr.2
     · simp only [Prod.mk.injEq] at hr; cases hr.2
 
 /-! ## An accepted request acts for its sender only -/
 
-/-- RFC 6492: whatever an accepted request does, it does to the record of the child named as
-sender: every other child's record, the CA's own identity and classes are untouched; a new or
-replaced certificate is issued to that child with resources inside its entitlement and inside the
-class; a certificate that disappears is the one for the key named in the request, and for a
-revocation that key is one the sender has in use. -/
+/-- RFC 6492: whatever an accepted request does – **the automatic un-suspension of a suspended
+sender included** – it does to the record of the child named as sender: every other child's
+record, the CA's own identity and classes are untouched; a new or replaced certificate (one issued
+on request, or re-issued because the sender came back from suspension) is issued to that child
+with resources inside its *current* entitlement and inside the class; a certificate that
+disappears is the one for the key named in the request, and for a revocation that key is one the
+sender has in use; no suspended certificate appears, and one disappears only from the slot of the
+key named in the request or of a key the suspended sender has in use. -/
 theorem scope_of_accepted (decode : Bytes → Option (Signed Msg)) (ca : Ca) (bytes : Bytes)
     (sg : Signed Msg) (hd : decode bytes = some sg) :
     let ca' := (rfc6492 decode ca bytes).1
@@ -173,12 +175,16 @@ theorem scope_of_accepted (decode : Bytes → Option (Signed Msg)) (ca : Ca) (by
     (∀ h, h ≠ sg.body.sender → lookup ca'.children h = lookup ca.children h) ∧
     (∀ ce ∈ ca'.certs, ce ∈ ca.certs ∨
       (ce.2.2.1 = sg.body.sender ∧
-        ∃ c res, lookup ca.children sg.body.sender = some c ∧ subset ce.2.2.2 c.resources = true ∧
-          lookup ca.classes ce.2.1 = some res ∧ subset ce.2.2.2 res = true)) ∧
+        ∃ c res, lookup ca.children sg.body.sender = some c ∧ subset ce.2.2.2.1 c.resources = true ∧
+          lookup ca.classes ce.2.1 = some res ∧ subset ce.2.2.2.1 res = true)) ∧
     (∀ ce ∈ ca.certs, ce ∈ ca'.certs ∨
       (sg.body.payload.key? = some ce.1 ∧
         ∀ cls k, sg.body.payload = .revoke cls k →
-          ∃ c, lookup ca.children sg.body.sender = some c ∧ c.inUse.any (·.1 == k) = true)) := by
+          ∃ c, lookup ca.children sg.body.sender = some c ∧ c.inUse.any (·.1 == k) = true)) ∧
+    (∀ s ∈ ca'.suspendedCerts, s ∈ ca.suspendedCerts) ∧
+    (∀ s ∈ ca.suspendedCerts, s ∈ ca'.suspendedCerts ∨ sg.body.payload.key? = some s.key ∨
+      ∃ c, lookup ca.children sg.body.sender = some c ∧ c.suspended = true ∧
+        (c.inUse.any fun ku => ku.1 == s.key && ku.2 == s.cls) = true) := by
   have g := rfc6492_gate decode ca bytes
   generalize rfc6492 decode ca bytes = r at g
   have same : ∀ ca0 : Ca, ca0 = ca →
@@ -186,14 +192,19 @@ theorem scope_of_accepted (decode : Bytes → Option (Signed Msg)) (ca : Ca) (by
       (∀ h, h ≠ sg.body.sender → lookup ca0.children h = lookup ca.children h) ∧
       (∀ ce ∈ ca0.certs, ce ∈ ca.certs ∨
         (ce.2.2.1 = sg.body.sender ∧
-          ∃ c res, lookup ca.children sg.body.sender = some c ∧ subset ce.2.2.2 c.resources = true ∧
-            lookup ca.classes ce.2.1 = some res ∧ subset ce.2.2.2 res = true)) ∧
+          ∃ c res, lookup ca.children sg.body.sender = some c ∧ subset ce.2.2.2.1 c.resources = true ∧
+            lookup ca.classes ce.2.1 = some res ∧ subset ce.2.2.2.1 res = true)) ∧
       (∀ ce ∈ ca.certs, ce ∈ ca0.certs ∨
         (sg.body.payload.key? = some ce.1 ∧
           ∀ cls k, sg.body.payload = .revoke cls k →
-            ∃ c, lookup ca.children sg.body.sender = some c ∧ c.inUse.any (·.1 == k) = true)) := by
+            ∃ c, lookup ca.children sg.body.sender = some c ∧ c.inUse.any (·.1 == k) = true)) ∧
+      (∀ s ∈ ca0.suspendedCerts, s ∈ ca.suspendedCerts) ∧
+      (∀ s ∈ ca.suspendedCerts, s ∈ ca0.suspendedCerts ∨ sg.body.payload.key? = some s.key ∨
+        ∃ c, lookup ca.children sg.body.sender = some c ∧ c.suspended = true ∧
+          (c.inUse.any fun ku => ku.1 == s.key && ku.2 == s.cls) = true) := by
     intro ca0 h; subst h
-    exact ⟨rfl, rfl, rfl, fun _ _ => rfl, fun ce h => Or.inl h, fun ce h => Or.inl h⟩
+    exact ⟨rfl, rfl, rfl, fun _ _ => rfl, fun ce h => Or.inl h, fun ce h => Or.inl h,
+      fun s h => h, fun s h => Or.inl h⟩
   cases g with
   | ta _ => exact same _ rfl
   | undecodable _ => exact same _ rfl
@@ -201,80 +212,81 @@ theorem scope_of_accepted (decode : Bytes → Option (Signed Msg)) (ca : Ca) (by
   | badSig _ _ _ _ _ => exact same _ rfl
   | passed sg' c _ hd' hl hs r hr =>
     rw [hd] at hd'; cases hd'
-    -- the state the request is dispatched on: the sender unsuspended, nothing else
-    let c1 : ChildRec := { c with suspended := false }
-    let ca1 : Ca := if c.suspended then
-        { ca with children := update ca.children sg.body.sender (fun _ => c1) } else ca
-    have h1 : ca1.handle = ca.handle ∧ ca1.idKey = ca.idKey ∧ ca1.classes = ca.classes ∧
-        ca1.certs = ca.certs ∧
-        ∀ h, h ≠ sg.body.sender → lookup ca1.children h = lookup ca.children h := by
-      simp only [ca1]
-      split
-      · exact ⟨rfl, rfl, rfl, rfl, fun h hne => by
-          simpa using lookup_update_ne ca.children sg.body.sender h (fun _ => c1) hne⟩
-      · exact ⟨rfl, rfl, rfl, rfl, fun _ _ => rfl⟩
-    obtain ⟨a1, a2, a3, a4, a5⟩ := h1
-    obtain ⟨d1, d2, d3, d4, d5, d6⟩ := dispatch_frame ca1 sg.body.sender c1 sg.body.payload
-    have hfst : r.1 = (dispatch ca1 sg.body.sender c1 sg.body.payload).1 := by
+    obtain ⟨d1, d2, d3, d4, d5, d6, d7, d8⟩ :=
+      processRequest_frame ca sg.body.sender c sg.body.payload
+    have hfst : r.1 = (processRequest ca sg.body.sender c sg.body.payload).1 := by
       rw [hr]
-      simp only [ca1, c1]
       split
       · rename_i heq; rw [heq]
       · rename_i heq; rw [heq]
     simp only
     rw [hfst]
-    refine ⟨d1.trans a1, d2.trans a2, d3.trans a3, fun h hne => (d4 h hne).trans (a5 h hne), ?_, ?_⟩
+    refine ⟨d1, d2, d3, d4, ?_, ?_, d7, ?_⟩
     · intro ce hce
       rcases d5 ce hce with h | ⟨h1, h2, res, h3, h4⟩
-      · left; rw [← a4]; exact h
-      · right; exact ⟨h1, c, res, hl, h2, by rw [← a3]; exact h3, h4⟩
+      · left; exact h
+      · right; exact ⟨h1, c, res, hl, h2, h3, h4⟩
     · intro ce hce
-      rw [← a4] at hce
       rcases d6 ce hce with h | ⟨h1, h2⟩
       · left; exact h
       · right; exact ⟨h1, fun cls k hp => ⟨c, hl, h2 cls k hp⟩⟩
+    · intro s hs'
+      rcases d8 s hs' with h | h | ⟨h1, h2⟩
+      · left; exact h
+      · right; left; exact h
+      · right; right; exact ⟨c, hl, h1, h2⟩
 
 /-- RFC 6492 list: the reply names only classes the sender is entitled in, with resources inside
-its entitlement, and only certificates issued to that sender. -/
+its entitlement, and only certificates issued to that sender for that class – with the resources
+these certificates carry. -/
 theorem list_only_own (ca : Ca) (child : Handle) (c : ChildRec) :
     ∀ e ∈ entitlements ca child c, subset e.2.1 c.resources = true ∧
-      ∀ k ∈ e.2.2, ∃ ce ∈ ca.certs, ce.1 = k ∧ ce.2.2.1 = child := by
+      ∀ kc ∈ e.2.2, ∃ ce ∈ ca.certs, ce.1 = kc.1 ∧ ce.2.1 = e.1 ∧ ce.2.2.1 = child ∧
+        ce.2.2.2.1 = kc.2 := by
   intro e he
   simp only [entitlements, List.mem_map, List.mem_filter] at he
   obtain ⟨cl, _, rfl⟩ := he
   refine ⟨subset_inter_left _ _, ?_⟩
-  intro k hk
-  simp only [List.mem_map, List.mem_filter, Bool.and_eq_true, List.any_eq_true, beq_iff_eq] at hk
-  obtain ⟨ku, ⟨_, _, ce, hce, h1, h2⟩, rfl⟩ := hk
-  exact ⟨ce, hce, h1, h2⟩
+  intro kc hkc
+  simp only [List.mem_filterMap, List.mem_filter, Option.map_eq_some_iff] at hkc
+  obtain ⟨ku, _, ce, hfind, rfl⟩ := hkc
+  have h1 := List.mem_of_find?_eq_some hfind
+  have h2 := List.find?_some hfind
+  simp only [Bool.and_eq_true, beq_iff_eq] at h2
+  exact ⟨ce, h1, h2.1.1, h2.1.2, h2.2, rfl⟩
 
 /-- RFC 6492, request kind by request kind – the only requests that are answered at all are list,
-issue and revoke, and each acts for the sender of the validated message:
+issue and revoke, and each acts for the sender of the validated message (`ca'` is the state
+afterwards):
 * **list**: the reply is the sender's entitlement: resources inside what the parent entitled it
-  to, and only certificates that were issued to the sender;
+  to, and only certificates the CA holds for the sender; a listed certificate that the CA did not
+  hold before the request (re-issued by the un-suspension) carries only resources inside the
+  sender's entitlement; for a sender that was not suspended nothing changes at all;
 * **issue**: the reply carries a certificate for the key of the request, issued to the sender
   (it is in the CA's state under the sender's name afterwards), with resources inside the
   sender's entitlement and inside the class;
 * **revoke**: the reply confirms the key of the request; either the class is unknown and nothing
-  was done, or the key is one the sender has in use. -/
+  was done (beyond un-suspending the sender), or the key is one the sender has in use. -/
 theorem acts_for_sender_by_kind (decode : Bytes → Option (Signed Msg)) (ca : Ca) (bytes : Bytes)
     (m : Signed Msg) (h : (rfc6492 decode ca bytes).2 = .replied m) :
     ∃ sg c, decode bytes = some sg ∧ lookup ca.children sg.body.sender = some c ∧
       sg.signer = c.idKey ∧
       match sg.body.payload with
       | .list =>
-        (rfc6492 decode ca bytes).1.certs = ca.certs ∧
+        (c.suspended = false → (rfc6492 decode ca bytes).1 = ca) ∧
         ∃ cls, m.body.payload = .listResponse cls ∧
           ∀ e ∈ cls, subset e.2.1 c.resources = true ∧
-            ∀ k ∈ e.2.2, ∃ ce ∈ ca.certs, ce.1 = k ∧ ce.2.2.1 = sg.body.sender
-      | .issue cls key _ _ =>
+            ∀ kc ∈ e.2.2, ∃ ce ∈ (rfc6492 decode ca bytes).1.certs,
+              ce.1 = kc.1 ∧ ce.2.1 = e.1 ∧ ce.2.2.1 = sg.body.sender ∧ ce.2.2.2.1 = kc.2 ∧
+              (ce ∈ ca.certs ∨ subset kc.2 c.resources = true)
+      | .issue cls key limit _ =>
         ∃ grant res, m.body.payload = .issueResponse cls key grant ∧
-          (key, cls, sg.body.sender, grant) ∈ (rfc6492 decode ca bytes).1.certs ∧
+          (key, cls, sg.body.sender, grant, limit) ∈ (rfc6492 decode ca bytes).1.certs ∧
           lookup ca.classes cls = some res ∧
           subset grant c.resources = true ∧ subset grant res = true
       | .revoke cls key =>
         m.body.payload = .revokeResponse cls key ∧
-          ((lookup ca.classes cls = none ∧ (rfc6492 decode ca bytes).1.certs = ca.certs) ∨
+          ((lookup ca.classes cls = none ∧ (c.suspended = false → (rfc6492 decode ca bytes).1 = ca)) ∨
             c.inUse.any (·.1 == key) = true)
       | _ => False := by
   have g := rfc6492_gate decode ca bytes
@@ -286,51 +298,51 @@ theorem acts_for_sender_by_kind (decode : Bytes → Option (Signed Msg)) (ca : C
   | badSig _ _ _ _ _ => cases h
   | passed sg c _ hd hl hs r hr =>
     refine ⟨sg, c, hd, hl, hs.1, ?_⟩
-    let c1 : ChildRec := { c with suspended := false }
-    let ca1 : Ca := if c.suspended then
-        { ca with children := update ca.children sg.body.sender (fun _ => c1) } else ca
-    have h1 : ca1.classes = ca.classes ∧ ca1.certs = ca.certs := by
-      simp only [ca1]; split <;> exact ⟨rfl, rfl⟩
-    cases hdp : dispatch ca1 sg.body.sender c1 sg.body.payload with
+    obtain ⟨_, _, _, _, f5, _⟩ := processRequest_frame ca sg.body.sender c sg.body.payload
+    cases hdp : processRequest ca sg.body.sender c sg.body.payload with
     | mk ca2 o =>
-      have hr' : r = (match dispatch ca1 sg.body.sender c1 sg.body.payload with
-          | (ca2, none) => (ca2, .refused .processing)
-          | (ca2, some p) =>
-            (ca2, .replied { signer := ca.idKey,
-                             body := { sender := ca.handle, recipient := sg.body.sender, payload := p } })) := hr
-      rw [hdp] at hr'
+      rw [hdp] at hr f5
       cases o with
-      | none => rw [hr'] at h; cases h
+      | none => rw [hr] at h; cases h
       | some p =>
-        rw [hr'] at h ⊢
+        simp only at hr
+        rw [hr] at h ⊢
         simp only [Out.replied.injEq] at h
         subst h
-        have hrep := dispatch_reply ca1 sg.body.sender c1 sg.body.payload p ca2 hdp
+        obtain ⟨X, cX, hdis, hcl, hres, hin, hns, _⟩ :=
+          processRequest_replied ca sg.body.sender c sg.body.payload ca2 p hdp
+        have hrep := dispatch_reply X sg.body.sender cX sg.body.payload p ca2 hdis
         cases hpl : sg.body.payload with
         | list =>
           rw [hpl] at hrep
           simp only [ReplyFor] at hrep
           obtain ⟨e1, e2⟩ := hrep
-          refine ⟨by rw [e1]; exact h1.2, _, e2, ?_⟩
+          refine ⟨fun hx => by rw [e1]; exact (hns hx).1, _, e2, ?_⟩
           intro e he
-          obtain ⟨a, b⟩ := list_only_own ca1 sg.body.sender c1 e he
-          refine ⟨a, ?_⟩
-          intro k hk
-          obtain ⟨ce, hce, x⟩ := b k hk
-          exact ⟨ce, h1.2 ▸ hce, x⟩
+          obtain ⟨a, b⟩ := list_only_own X sg.body.sender cX e he
+          refine ⟨hres ▸ a, ?_⟩
+          intro kc hkc
+          obtain ⟨ce, hce, x1, x2, x3, x4⟩ := b kc hkc
+          have hce2 : ce ∈ ca2.certs := by rw [e1]; exact hce
+          refine ⟨ce, hce2, x1, x2, x3, x4, ?_⟩
+          rcases f5 ce hce2 with y | ⟨_, y, _⟩
+          · left; exact y
+          · right; rw [← x4]; exact y
         | issue cls key limit csrOk =>
           rw [hpl] at hrep
           simp only [ReplyFor] at hrep
           obtain ⟨grant, res, e1, e2, e3, e4, e5⟩ := hrep
-          exact ⟨grant, res, e1, e2, h1.1 ▸ e3, e4, e5⟩
+          exact ⟨grant, res, e1, e2, hcl ▸ e3, hres ▸ e4, e5⟩
         | revoke cls key =>
           rw [hpl] at hrep
           simp only [ReplyFor] at hrep
           obtain ⟨e1, e2⟩ := hrep
           refine ⟨e1, ?_⟩
           rcases e2 with ⟨a, b⟩ | b
-          · left; exact ⟨h1.1 ▸ a, by rw [b]; exact h1.2⟩
-          · right; exact b
+          · left; exact ⟨hcl ▸ a, fun hx => by rw [b]; exact (hns hx).1⟩
+          · right
+            obtain ⟨ku, hku, hk⟩ := List.any_eq_true.mp b
+            exact List.any_eq_true.mpr ⟨ku, hin ku hku, hk⟩
         | listResponse x => rw [hpl] at hrep; exact hrep
         | issueResponse x y z => rw [hpl] at hrep; exact hrep
         | revokeResponse x y => rw [hpl] at hrep; exact hrep
@@ -480,7 +492,6 @@ theorem reply_signed_by_current_id (decode : Bytes → Option (Signed Msg)) (ca 
   | badSig _ _ _ _ _ => cases h
   | passed sg c _ hd hl hs r hr =>
     subst hr
-    simp only at h
     split at h
     · cases h
     · simp only [Out.replied.injEq] at h
@@ -511,6 +522,263 @@ theorem reply_signed_by_current_id_8181 (decode : Bytes → Option (Signed PMsg)
       · simp only [Out.replied.injEq] at h; subst h; rfl
     · cases h
 
+/-! ## A suspended sender: what the automatic un-suspension brings back -/
+
+/-- `ChildUnsuspend`, certificate by certificate.  Let `s` be the suspended certificate in the slot
+of a key the child has in use (in a class that still exists).  After a successful un-suspension
+* the slot is empty in the suspended certificates in every case;
+* the certificate **comes back** – a new certificate for the same key, class and limit, issued to
+  this child, with the resources `issue_cert` computes from the old certificate's resources, and
+  the key stays in use – **iff** it is not about to expire **and its resources are inside the
+  child's current entitlement**;
+* otherwise it is **gone**: the key is no longer in use, it is marked revoked in the child's
+  record, and no certificate was made for that slot. -/
+theorem unsuspend_reissues_iff (ca : Ca) (child : Handle) (c : ChildRec) (ca1 : Ca) (c1 : ChildRec)
+    (h : unsuspend ca child c = some (ca1, c1))
+    (s : SuspCert) (hs : suspFor ca s.cls s.key = some s) (hk : (s.key, s.cls) ∈ c.inUse)
+    (cres : List Nat) (hc : lookup ca.classes s.cls = some cres) :
+    (∀ s' ∈ ca1.suspendedCerts, ¬ (s'.key = s.key ∧ s'.cls = s.cls)) ∧
+    ((∃ g, issueRes cres s.res s.limit = some g ∧ (s.key, s.cls, child, g, s.limit) ∈ ca1.certs ∧
+        (s.key, s.cls) ∈ c1.inUse) ↔
+      (s.expiring = false ∧ subset s.res c.resources = true)) ∧
+    (¬ (s.expiring = false ∧ subset s.res c.resources = true) →
+      (s.key, s.cls) ∉ c1.inUse ∧ s.key ∈ c1.revoked ∧
+      ∀ ce ∈ ca1.certs, ce.1 = s.key → ce.2.1 = s.cls → ce ∈ ca.certs) := by
+  obtain ⟨nofail, hc1, hca1⟩ := unsuspend_eq_some ca child c ca1 c1 h
+  have hfate := fate_of_slot ca c (s.key, s.cls) cres s hc hs
+  subst hca1
+  refine ⟨?_, ?_, ?_⟩
+  · intro s' hs' hsame
+    have hp := (List.mem_filter.mp hs').2
+    simp only [Bool.not_eq_true', List.any_eq_false] at hp
+    apply hp (s.key, s.cls) hk
+    simp [hsame.1, hsame.2, hc]
+  · constructor
+    · rintro ⟨g, _, _, hin⟩
+      rw [hc1] at hin
+      have hnd := (List.mem_filter.mp hin).2
+      by_cases hcond : (!s.expiring && subset s.res c.resources) = true
+      · simpa [Bool.and_eq_true] using hcond
+      · rw [hfate] at hnd
+        simp [hcond, Fate.isDrop] at hnd
+    · rintro ⟨he, hsub⟩
+      have hcond : (!s.expiring && subset s.res c.resources) = true := by simp [he, hsub]
+      rw [if_pos hcond] at hfate
+      cases hi : issueRes cres s.res s.limit with
+      | none =>
+        rw [hi] at hfate
+        have := nofail (s.key, s.cls) hk
+        rw [hfate] at this
+        simp [Fate.isFail] at this
+      | some g =>
+        rw [hi] at hfate
+        refine ⟨g, rfl, ?_, ?_⟩
+        · apply List.mem_append_left
+          exact List.mem_filterMap.mpr ⟨(s.key, s.cls), hk, by simp [hfate, Fate.cert?]⟩
+        · rw [hc1]
+          exact List.mem_filter.mpr ⟨hk, by simp [hfate, Fate.isDrop]⟩
+  · intro hn
+    have hcond : ¬ (!s.expiring && subset s.res c.resources) = true := by
+      simpa [Bool.and_eq_true] using hn
+    rw [if_neg hcond] at hfate
+    refine ⟨?_, ?_, ?_⟩
+    · rw [hc1]
+      intro hin
+      have := (List.mem_filter.mp hin).2
+      simp [hfate, Fate.isDrop] at this
+    · rw [hc1]
+      apply List.mem_append_left
+      exact List.mem_map.mpr ⟨(s.key, s.cls), List.mem_filter.mpr ⟨hk, by simp [hfate, Fate.isDrop]⟩, rfl⟩
+    · intro ce hce h1 h2
+      rcases List.mem_append.mp hce with hce | hce
+      · obtain ⟨ku, _, hcert⟩ := List.mem_filterMap.mp hce
+        cases hfa : fate ca c ku with
+        | reissue g l =>
+          simp only [hfa, Fate.cert?, Option.some.injEq] at hcert
+          subst hcert
+          have : ku = (s.key, s.cls) := Prod.ext h1 h2
+          rw [this, hfate] at hfa
+          cases hfa
+        | keep => simp [hfa, Fate.cert?] at hcert
+        | drop => simp [hfa, Fate.cert?] at hcert
+        | fail => simp [hfa, Fate.cert?] at hcert
+      · exact hce
+
+/-- What `issue_cert` demands, and what a failure means: the un-suspension fails exactly when a
+suspended certificate that qualifies for re-issue (not expiring, inside the entitlement) carries
+a limit that is no longer inside *class ∩ its resources* (`RequestResourceLimit::apply_to`) –
+nothing else makes `issue_cert` fail for a class with a current key, in particular not an empty
+result. -/
+theorem unsuspend_fails_iff (ca : Ca) (child : Handle) (c : ChildRec) :
+    unsuspend ca child c = none ↔
+      ∃ ku ∈ c.inUse, ∃ cres s, lookup ca.classes ku.2 = some cres ∧ suspFor ca ku.2 ku.1 = some s ∧
+        s.expiring = false ∧ subset s.res c.resources = true ∧
+        s.limit ≠ [] ∧ subset s.limit (inter s.res cres) = false := by
+  rw [unsuspend_eq_none]
+  constructor
+  · rintro ⟨ku, hku, hf⟩
+    obtain ⟨cres, s, a1, a2, a3, a4, a5⟩ := (fate_fail_iff ca c ku).mp hf
+    obtain ⟨b1, b2⟩ := (issueRes_none_iff _ _ _).mp a5
+    exact ⟨ku, hku, cres, s, a1, a2, a3, a4, b1, b2⟩
+  · rintro ⟨ku, hku, cres, s, a1, a2, a3, a4, b1, b2⟩
+    exact ⟨ku, hku, (fate_fail_iff ca c ku).mpr
+      ⟨cres, s, a1, a2, a3, a4, (issueRes_none_iff _ _ _).mpr ⟨b1, b2⟩⟩⟩
+
+/-- An authentic request of a suspended sender: either the un-suspension fails – then the request
+is refused and **nothing** changes, the sender stays suspended – or it is carried out first and
+the request is dispatched on the resulting state; afterwards the sender is active. -/
+theorem suspended_sender_unsuspended_first (decode : Bytes → Option (Signed Msg)) (ca : Ca)
+    (bytes : Bytes) (sg : Signed Msg) (c : ChildRec) (hta : ca.handle ≠ "ta")
+    (hd : decode bytes = some sg) (hl : lookup ca.children sg.body.sender = some c)
+    (hsig : sg.signer = c.idKey) (hfresh : sg.fresh = true) (hsus : c.suspended = true) :
+    (unsuspend ca sg.body.sender c = none ∧ rfc6492 decode ca bytes = (ca, .refused .processing)) ∨
+    (∃ ca1 c1, unsuspend ca sg.body.sender c = some (ca1, c1) ∧
+      (rfc6492 decode ca bytes).1 = (dispatch ca1 sg.body.sender c1 sg.body.payload).1 ∧
+      ∃ c', lookup (rfc6492 decode ca bytes).1.children sg.body.sender = some c' ∧
+        c'.suspended = false ∧ c'.idKey = c.idKey ∧ c'.resources = c.resources) := by
+  have g := rfc6492_gate decode ca bytes
+  generalize rfc6492 decode ca bytes = r at g
+  cases g with
+  | ta hh => exact absurd hh hta
+  | undecodable hh => rw [hd] at hh; cases hh
+  | unknown sg' hh hl' => rw [hd] at hh; cases hh; rw [hl] at hl'; cases hl'
+  | badSig sg' c' hh hl' hs =>
+    rw [hd] at hh; cases hh; rw [hl] at hl'; cases hl'
+    exact absurd ⟨hsig, hfresh⟩ hs
+  | passed sg' c' _ hh hl' hs r hr =>
+    rw [hd] at hh; cases hh; rw [hl] at hl'; cases hl'
+    rcases processRequest_cases ca sg.body.sender c sg.body.payload with
+      ⟨hx, _⟩ | ⟨_, hu, he⟩ | ⟨_, ca1, c1, hu, he⟩
+    · rw [hsus] at hx; cases hx
+    · left
+      rw [he] at hr
+      exact ⟨hu, hr⟩
+    · right
+      have hfst : r.1 = (dispatch ca1 sg.body.sender c1 sg.body.payload).1 := by
+        rw [hr, he]
+        split
+        · rename_i heq; rw [heq]
+        · rename_i heq; rw [heq]
+      obtain ⟨_, _, _, _, u5, ⟨u6, u7, u8, _⟩, _⟩ := unsuspend_frame ca sg.body.sender c ca1 c1 hu
+      obtain ⟨c', k1, k2, k3, k4⟩ :=
+        dispatch_child_rec ca1 sg.body.sender c1 sg.body.payload (u5 c hl)
+      exact ⟨ca1, c1, hu, hfst, c', hfst ▸ k1, k2.trans u8, k3.trans u6, k4.trans u7⟩
+
+/-- … and a request that names a suspended child as sender but is **not** signed with the key
+registered for it changes nothing: the child is still suspended, nothing is re-issued, no
+suspended certificate is touched (an instance of `refused_no_change`). -/
+theorem foreign_key_leaves_suspended (decode : Bytes → Option (Signed Msg)) (ca : Ca) (bytes : Bytes)
+    (sg : Signed Msg) (c : ChildRec) (hd : decode bytes = some sg)
+    (hl : lookup ca.children sg.body.sender = some c) (hforeign : sg.signer ≠ c.idKey) :
+    ∃ why, rfc6492 decode ca bytes = (ca, .refused why) ∧ why ≠ .processing := by
+  apply refused_no_change
+  rintro ⟨sg', c', hd', hl', hs', _⟩
+  rw [hd] at hd'; cases hd'
+  rw [hl] at hl'; cases hl'
+  exact hforeign hs'
+
+/-! ### Counter-model: the entitlement test the other way round
+
+`process_child_unsuspend` with the operands of `contains` swapped
+(`suspended.resources.contains(&child.resources)`): everything else as in the model. -/
+def swappedFate (ca : Ca) (c : ChildRec) (ku : Key × String) : Fate :=
+  match lookup ca.classes ku.2 with
+  | none => .keep
+  | some classRes =>
+    match suspFor ca ku.2 ku.1 with
+    | none => .keep
+    | some s =>
+      if !s.expiring && subset c.resources s.res then     -- ← swapped
+        match issueRes classRes s.res s.limit with
+        | some g => .reissue g s.limit
+        | none => .fail
+      else .drop
+
+def swappedUnsuspend (ca : Ca) (child : Handle) (c : ChildRec) : Option (Ca × ChildRec) :=
+  if c.inUse.any (fun ku => (swappedFate ca c ku).isFail) then none
+  else
+    let c' : ChildRec :=
+      { c with suspended := false,
+               inUse := c.inUse.filter (fun ku => !(swappedFate ca c ku).isDrop),
+               revoked := (c.inUse.filter (fun ku => (swappedFate ca c ku).isDrop)).map (·.1) ++ c.revoked }
+    some ({ ca with
+        children := update ca.children child (fun _ => c'),
+        certs := c.inUse.filterMap (fun ku => (swappedFate ca c ku).cert? child ku) ++ ca.certs,
+        suspendedCerts := ca.suspendedCerts.filter fun s =>
+          !(c.inUse.any fun ku => ku.1 == s.key && ku.2 == s.cls && (lookup ca.classes ku.2).isSome) },
+      c')
+
+def swappedProcessRequest (ca : Ca) (child : Handle) (c : ChildRec) (pl : Payload) : Ca × Option Payload :=
+  if c.suspended then
+    match swappedUnsuspend ca child c with
+    | none => (ca, none)
+    | some (ca1, c1) => dispatch ca1 child c1 pl
+  else dispatch ca child c pl
+
+def swappedRfc6492 {Bytes : Type} (decode : Bytes → Option (Signed Msg)) (ca : Ca) (bytes : Bytes) :
+    Ca × Out Msg :=
+  if ca.handle = "ta" then (ca, .refused .taNotRemote) else
+  match decode bytes with
+  | none => (ca, .refused .undecodable)
+  | some sg =>
+    match lookup ca.children sg.body.sender with
+    | none => (ca, .refused .unknownSender)
+    | some c =>
+      if !(sg.signer == c.idKey && sg.fresh) then (ca, .refused .badSignature)
+      else
+        match swappedProcessRequest ca sg.body.sender c sg.body.payload with
+        | (ca2, none) => (ca2, .refused .processing)
+        | (ca2, some p) =>
+          (ca2, .replied { signer := ca.idKey,
+                           body := { sender := ca.handle, recipient := sg.body.sender, payload := p } })
+
+/-- A child that was entitled to `[1, 2]`, got a certificate for it, was suspended, and whose
+entitlement was then reduced to `[1]`. -/
+def reducedWhileSuspended : Ca :=
+  { handle := "p", idKey := 5,
+    children := [("c", { idKey := 11, suspended := true, resources := [1], inUse := [(101, "0")] })],
+    classes := [("0", [1, 2, 3])],
+    suspendedCerts := [{ key := 101, cls := "0", child := "c", res := [1, 2] }] }
+
+def listFromC : Nat → Option (Signed Msg)
+  | 0 => some { signer := 11, body := ⟨"c", "p", .list⟩ }
+  | _ => none
+
+/-- The swapped test violates the clause of `scope_of_accepted` about new certificates: on a list
+request of the child that came back, the CA ends up with a certificate for `[1, 2]` – not held
+before, and outside the sender's entitlement `[1]` – and lists it in the reply.  (The model drops
+the certificate, see the `example` below.) -/
+theorem swapped_contains_overclaims :
+    let ca := reducedWhileSuspended
+    let ca' := (swappedRfc6492 listFromC ca 0).1
+    ¬ (∀ ce ∈ ca'.certs, ce ∈ ca.certs ∨
+        (ce.2.2.1 = "c" ∧
+          ∃ c res, lookup ca.children "c" = some c ∧ subset ce.2.2.2.1 c.resources = true ∧
+            lookup ca.classes ce.2.1 = some res ∧ subset ce.2.2.2.1 res = true)) := by
+  intro ca ca' hall
+  have hmem : ((101, "0", "c", [1, 2], []) : Cert) ∈ ca'.certs := by decide
+  rcases hall _ hmem with h | ⟨_, c, res, hc, hsub, _⟩
+  · revert h; decide
+  · have : c = { idKey := 11, suspended := true, resources := [1], inUse := [(101, "0")] } := by
+      have hc' : lookup ca.children "c" =
+          some { idKey := 11, suspended := true, resources := [1], inUse := [(101, "0")] } := by decide
+      rw [hc'] at hc
+      exact (Option.some.inj hc).symm
+    subst this
+    revert hsub; decide
+
+example :
+    (swappedRfc6492 listFromC reducedWhileSuspended 0).2 =
+      .replied { signer := 5, body := ⟨"p", "c", .listResponse [("0", [1], [(101, [1, 2])])]⟩ } ∧
+    -- the model: the certificate is dropped, the key revoked, the class listed without certificate
+    (rfc6492 listFromC reducedWhileSuspended 0).2 =
+      .replied { signer := 5, body := ⟨"p", "c", .listResponse [("0", [1], [])]⟩ } ∧
+    (rfc6492 listFromC reducedWhileSuspended 0).1.certs = [] ∧
+    (rfc6492 listFromC reducedWhileSuspended 0).1.suspendedCerts = [] ∧
+    lookup (rfc6492 listFromC reducedWhileSuspended 0).1.children "c" =
+      some { idKey := 11, suspended := false, resources := [1], inUse := [], revoked := [101] } := by
+  decide
+
 /-! ## Non-vacuity -/
 
 /-- A parent with two children; bytes are small numbers with a table as decoder. -/
@@ -518,7 +786,7 @@ example :
     let c1 : ChildRec := { idKey := 11, resources := [1, 2], inUse := [(101, "0")] }
     let c2 : ChildRec := { idKey := 12, resources := [3], suspended := true }
     let ca : Ca := { handle := "p", idKey := 5, children := [("a", c1), ("b", c2)],
-                     classes := [("0", [1, 2, 3])], certs := [(101, "0", "a", [1, 2])] }
+                     classes := [("0", [1, 2, 3])], certs := [(101, "0", "a", [1, 2], [])] }
     let decode : Nat → Option (Signed Msg)
       | 0 => some { signer := 11, body := ⟨"a", "p", .list⟩ }               -- a, own key
       | 1 => some { signer := 12, body := ⟨"a", "p", .list⟩ }               -- a, signed by b
@@ -527,7 +795,7 @@ example :
       | 4 => some { signer := 12, body := ⟨"b", "x", .issue "0" 201 [] true⟩ }  -- wrong recipient
       | 5 => some { signer := 11, body := ⟨"a", "p", .list⟩, fresh := false }
       | _ => none
-    (rfc6492 decode ca 0).2 = .replied { signer := 5, body := ⟨"p", "a", .listResponse [("0", [1, 2], [101])]⟩ } ∧
+    (rfc6492 decode ca 0).2 = .replied { signer := 5, body := ⟨"p", "a", .listResponse [("0", [1, 2], [(101, [1, 2])])]⟩ } ∧
     rfc6492 decode ca 1 = (ca, .refused .badSignature) ∧
     (rfc6492 decode ca 2).1.certs = [] ∧
     (rfc6492 decode ca 3).2 = .refused .processing ∧ (rfc6492 decode ca 3).1.certs = ca.certs ∧
@@ -536,6 +804,67 @@ example :
     rfc6492 decode ca 9 = (ca, .refused .undecodable) ∧
     rfc6492 decode (ca.updateChildId "a" 13) 0 = (ca.updateChildId "a" 13, .refused .badSignature) := by
   intro c1 c2 ca decode
+  decide
+
+/-- Suspension and what comes back.  Child `a` holds certificates in two classes and one with a
+limit; it is suspended (`suspendChild`), then the entitlement changes, then it sends a list request:
+* entitlement unchanged → all three certificates are re-issued, nothing is left suspended;
+* reduced to `[1]` → only the certificate for `[1]` (key 101) comes back, 102 (`[2]`, limit) and
+  103 (`[4]`, other class) are dropped and their keys revoked;
+* disjoint `[3]` → nothing comes back;
+* a certificate about to expire is dropped although it is inside the entitlement;
+* a request under another child's key leaves the suspended child exactly as it was;
+* a limit that no longer fits the class makes the un-suspension – and the request – fail with no
+  change; an issue request for a class in which the sender has no entitlement stores an empty
+  certificate and is answered with an error (`issuance_response`: `KeyUseNoIssuedCert`); that
+  certificate makes later list requests fail as soon as the class is listed for the sender. -/
+example :
+    let a : ChildRec := { idKey := 11, resources := [1, 2, 4], inUse := [(101, "0"), (102, "0"), (103, "1")] }
+    let b : ChildRec := { idKey := 12, resources := [3], inUse := [(201, "0")] }
+    let ca : Ca := { handle := "p", idKey := 5, children := [("a", a), ("b", b)],
+                     classes := [("0", [1, 2, 3]), ("1", [4])],
+                     certs := [(101, "0", "a", [1], []), (102, "0", "a", [2], [2]), (103, "1", "a", [4], []),
+                               (201, "0", "b", [3], [])] }
+    let sus := ca.suspendChild "a" (fun _ => false)
+    let decode : Nat → Option (Signed Msg)
+      | 0 => some { signer := 11, body := ⟨"a", "p", .list⟩ }
+      | 1 => some { signer := 12, body := ⟨"a", "p", .list⟩ }               -- signed by b
+      | 2 => some { signer := 11, body := ⟨"a", "p", .issue "1" 104 [] true⟩ }
+      | _ => none
+    -- suspension moves a's certificates, b's stays
+    sus.certs = [(201, "0", "b", [3], [])] ∧ sus.suspendedCerts.length = 3 ∧
+    (lookup sus.children "a").map (·.suspended) = some true ∧
+    ca.suspendChild "zz" (fun _ => false) = ca ∧ sus.suspendChild "a" (fun _ => true) = sus ∧
+    -- (a) unchanged entitlement: everything comes back
+    (rfc6492 decode sus 0).2 = .replied { signer := 5, body := ⟨"p", "a",
+        .listResponse [("0", [1, 2], [(101, [1]), (102, [2])]), ("1", [4], [(103, [4])])]⟩ } ∧
+    (rfc6492 decode sus 0).1.suspendedCerts = [] ∧
+    (lookup (rfc6492 decode sus 0).1.children "a").map (·.suspended) = some false ∧
+    -- (b) reduced to a strict subset
+    (rfc6492 decode (sus.updateChildResources "a" [1]) 0).2 = .replied { signer := 5, body := ⟨"p", "a",
+        .listResponse [("0", [1], [(101, [1])])]⟩ } ∧
+    (lookup (rfc6492 decode (sus.updateChildResources "a" [1]) 0).1.children "a").map (·.revoked) =
+      some [102, 103] ∧
+    -- (c) disjoint
+    (rfc6492 decode (sus.updateChildResources "a" [3]) 0).2 = .replied { signer := 5, body := ⟨"p", "a",
+        .listResponse [("0", [3], [])]⟩ } ∧
+    (rfc6492 decode (sus.updateChildResources "a" [3]) 0).1.certs = [(201, "0", "b", [3], [])] ∧
+    -- about to expire
+    (rfc6492 decode (ca.suspendChild "a" (fun k => k == 101)) 0).2 = .replied { signer := 5, body := ⟨"p", "a",
+        .listResponse [("0", [1, 2], [(102, [2])]), ("1", [4], [(103, [4])])]⟩ } ∧
+    -- (e) foreign key: refused, still suspended, nothing re-issued
+    rfc6492 decode sus 1 = (sus, .refused .badSignature) ∧
+    -- the class lost `2`: the limit `[2]` of 102 no longer fits → the whole request fails, no change
+    (let shrunk := { sus with classes := [("0", [1, 3]), ("1", [4])] }
+     rfc6492 decode shrunk 0 = (shrunk, .refused .processing) ∧ unsuspend shrunk "a" { a with suspended := true } = none) ∧
+    -- issue in a class without entitlement: an empty certificate is stored, the reply is an error
+    (rfc6492 decode (ca.updateChildResources "a" [1]) 2).2 = .refused .processing ∧
+    (104, "1", "a", [], []) ∈ (rfc6492 decode (ca.updateChildResources "a" [1]) 2).1.certs ∧
+    -- … and that certificate cannot be parsed back (`to_rfc6492_issued_cert`): once the sender is
+    -- entitled in that class again, its list requests fail
+    (let poisoned := (rfc6492 decode (ca.updateChildResources "a" [1]) 2).1.updateChildResources "a" [1, 4]
+     rfc6492 decode poisoned 0 = (poisoned, .refused .processing)) := by
+  intro a b ca sus decode
   decide
 
 example :
